@@ -557,7 +557,14 @@ def classify(cexs):
                 dd = d.lower()
         shape = c["shape"]
         if fp is not None and (dd.startswith(fp) or fp.startswith(dd)):
-            role = "is_partial_match:prefix-comparison-counts-bytes-as-characters" if multibyte else "is_partial_match:prefix-comparison"
+            nchars = lambda b: len(b.decode("utf-8", "replace"))
+            if multibyte and nchars(d) > nchars(fp):
+                # more characters of the directory are compared than the prefix has (byte length used as a character count)
+                role = "is_partial_match:prefix-comparison-counts-bytes-as-characters"
+            elif c.get("ci") and multibyte:
+                role = "is_partial_match:case-folding-of-non-ascii-letters"
+            else:
+                role = "is_partial_match:prefix-comparison"
         elif multibyte and ("LITQ" in shape or "LITS" in shape) and optional_after_multibyte(shape):
             # (tested before the escape roles: a regex can contain an escaped character *and* an optional literal after a
             # multi-byte character; the wrongly kept optional literal is what makes the prefix wrong then)
